@@ -224,6 +224,9 @@ class SymbolFinder:
 			シンボル。未定義の場合はNone
 		"""
 		elems = ModuleDSN.expand_elements(domain_name)
+		if len(elems) == 0:
+			return None
+
 		import_fullyname = ModuleDSN.full_joined(on_module_path, elems[0])
 		if import_fullyname not in db:
 			return None
